@@ -11,8 +11,10 @@ def run(c, a):
     c.rule = ("glyph = (TrueType corpus font with glyf/loca/hmtx, glyph id): all glyphs of small fonts, a seeded sample otherwise; the raw glyph record is decoded by Glyf.tla "
               "(flags with repeats, short/same coordinate deltas, implied mid-points) and compared with GlyphData (per contour, up to rotation of the start point), GlyphExtents, HorizontalAdvance (numberOfHMetrics tail rule) and Upem; "
               "composite glyphs whose components are simple glyphs placed by x/y offsets without scaling are decoded too (Components, translation, USE_MY_METRICS shift) and compared contour by contour; "
-              "non-trivial = judged glyph with >= 1 contour; distinct = distinct (font, glyph)")
-    c.assumptions = ["PARTIAL: TrueType simple glyphs and translation-only composites of simple glyphs at default coordinates; CFF/CFF2 charstrings, scaled / point-anchored / nested composites, variation instances and cmap decoding are not covered (no reference decoder is available offline; DESIGN §6)",
+              "character-to-glyph mapping: the raw cmap table of every face (quick: 400 corpus files, thorough: all) is decoded by CmapBytes.tla (encoding records, choice of the Unicode subtable, formats 4/6/10/12/13) "
+              "and compared with NominalGlyph over all 0x110000 code points; "
+              "non-trivial = judged glyph with >= 1 contour / face whose mapping has >= 2 run-length segments; distinct = distinct (font, glyph) / faces")
+    c.assumptions = ["PARTIAL: TrueType simple glyphs and translation-only composites of simple glyphs at default coordinates; CFF/CFF2 charstrings, scaled / point-anchored / nested composites, variation instances, symbol / Macintosh-encoded cmaps and cmap formats 0/2/14 are not covered (no reference decoder is available offline; DESIGN §6)",
                      "raw table bytes are read through opentype.Loader.RawTable (C19/C09 cover it) and sliced with loca by the harness",
                      "the x bearing may be xMin or the hmtx left side bearing (rasterizer convention followed by the reference shaper)"]
     prefix = os.path.join(c.scratch, "gl")
@@ -35,6 +37,51 @@ def run(c, a):
                     raise Undecided("harness fetched other component records than the specification decodes: %s gid %s" % (ev["font"], ev["gid"]))
                 c.fail("pred=%s font=%s" % (f["pred"], ev["font"]), "gid=%d ext=%s adv=%s nhm=%s advgid=%s advlast=%s glyf=%s" % (ev["gid"], ev["ext"], ev["adv"], ev["nhm"], ev["advgid"], ev["advlast"], ev["glyf"][:40]),
                        {"engine": "glyf", "font": ev["font"], "gid": ev["gid"]})
+    # ---- character-to-glyph mapping: the raw cmap table decoded by CmapBytes.tla vs NominalGlyph over all code points
+    prefix = os.path.join(c.scratch, "cb")
+    out = json.loads(c.vh(["cmapbytes", "corpus", 0 if thorough else 400, 400000, prefix, NCPU], timeout=7200).stdout)
+    c.extra["cmap_generated"] = out
+    ctraces = [t for t in ["%s.%02d.ndjson" % (prefix, i) for i in range(NCPU)] if os.path.exists(t) and os.path.getsize(t) > 0]
+    cst = {}
+    mutant_src = None
+    for tp, rj, r in c.validate("CmapBytesV", ctraces, timeout=7200, heap="4g"):
+        st = rj["stats"]
+        for k, v in st.items():
+            cst[k] = cst.get(k, 0) + v
+        c.evaluations += st["judged"]
+        c.traces += st["n"]
+        c.nontrivial += st["nontriv"]
+        lines = open(tp).read().split("\n")
+        for f in rj["fails"]:
+            ev = json.loads(lines[f["line"] - 1])
+            c.fail("pred=CmapDecode font=%s" % ev["font"], "format=%s first mismatching code point U+%04X (%d probes disagree) look=%s" % (f["format"], f["at"], f["n"], str(ev["look"])[:160]),
+                   {"engine": "cmapbytes", "font": ev["font"], "at": f["at"]})
+        if mutant_src is None and not rj["fails"]:
+            for l in lines:
+                if l and len(l) < 200000:
+                    ev = json.loads(l)
+                    if len(ev["look"]) >= 3:
+                        mutant_src = ev
+                        break
+    c.extra["cmap_stats"] = cst
+    # binding / vacuity guard: corrupt one recorded field (one glyph of the library's answer, then one word of the table) -> the monitor must reject
+    if mutant_src is None:
+        from .common import Undecided
+        raise Undecided("no judged cmap event to derive the sensitivity test from")
+    m1 = json.loads(json.dumps(mutant_src))
+    m1["look"][1][2] += 1
+    m2 = json.loads(json.dumps(mutant_src))
+    m2["look"][1][1] += 1 if m2["look"][1][1] + 1 < m2["look"][2][0] else 0
+    m2["look"][1][0] -= 1 if m2["look"][1][0] - 1 > m2["look"][0][1] else 0
+    mt = os.path.join(c.scratch, "cb_mutant.ndjson")
+    open(mt, "w").write(json.dumps(m1) + "\n" + json.dumps(m2) + "\n" + json.dumps(mutant_src) + "\n")
+    for tp, rj, r in c.validate("CmapBytesV", [mt], timeout=600, heap="2g"):
+        bad = sorted(f["line"] for f in rj["fails"])
+        want = [1] if m2 == mutant_src else [1, 2]
+        if bad != want:
+            from .common import Undecided
+            raise Undecided("CmapBytesV sensitivity test: corrupted events %s expected to be rejected, got %s" % (want, bad))
+        c.extra["cmap_sensitivity"] = "corrupted glyph / widened range rejected (lines %s), original accepted" % bad
     c.exhaustive = False
     for l in open(traces[0]).read().split("\n")[:60]:
         if l and '"segs":[[' in l and len(c.samples) < 2:
